@@ -376,6 +376,10 @@ func VerifySession(dlg delegation.Delegation, prfs []delegation.Delegation, ctx 
 	// exponential scan if there are other proofs that require attestations.
 	var aprfs []delegation.Proof
 	for _, p := range prfs {
+		// the delegation being verified can not attest itself
+		if p.Link().String() == dlg.Link().String() {
+			continue
+		}
 		caps := p.Capabilities()
 		if len(caps) > 0 && caps[0].Can() == "ucan/attest" {
 			aprfs = append(aprfs, delegation.FromDelegation(p))
